@@ -56,15 +56,17 @@ func (r *InMemoryRepository) AddTask(
 	if ctx.Err() != nil {
 		return def.Task{}, ctx.Err()
 	}
+
+	// created_at and the insertion order must be taken in the order tasks are stored.
+	r.mu.Lock()
+	defer r.mu.Unlock()
+
 	t := param.ToTask(r.randStrGen(), r.clock.Now())
 	if !t.IsValid() {
 		return def.Task{},
 			fmt.Errorf("%w. reason = %v", def.ErrInvalidTask, t.ReportInvalidity())
 	}
 	wrapped := sortabletask.WrapTask(t.Clone(), r.insertionOrderCount)
-
-	r.mu.Lock()
-	defer r.mu.Unlock()
 
 	r.heap.Push(wrapped)
 	r.orderedMap.Set(wrapped.Task.Id, wrapped)
